@@ -395,6 +395,115 @@ func rulesC16(w *World, o *Out) {
 			}
 		}
 	}
+	// ---- R7: the wasm binding that writes bank metadata itself ----
+	o.Rule("C16.R7", "the set_metadata wasm binding writes bank metadata only for the denomination whose admin it checked: the write is dominated by admin == contract for GetAuthorityMetadata(denom), and a metadata Base other than that denom is refused before the write")
+	if psm := w.MustFunc(o, "x/tokenfactory/bindings", "", "PerformSetMetadata"); psm != nil {
+		o.Analysed(w.FuncKey(psm))
+		var denomP, contractP, metaP *ssa.Parameter
+		for _, q := range psm.Params {
+			switch q.Name() {
+			case "denom":
+				denomP = q
+			case "contractAddr":
+				contractP = q
+			case "metadata":
+				metaP = q
+			}
+		}
+		sites := FindCalls(psm, false, func(c Callee) bool { return c.Name == "SetDenomMetaData" })
+		o.Count("C16.R7 metadata writes in the binding", len(sites), 1)
+		for _, st := range sites {
+			pos := w.Pos(st.Instr.Pos())
+			okAdmin := false
+			for _, f := range FactsAt(st.Instr) {
+				if f.Kind != FCmp || f.Op != token.EQL {
+					continue
+				}
+				for _, pair := range [][2]ssa.Value{{f.X, f.Y}, {f.Y, f.X}} {
+					a, b := f.Resolve(pair[0]), f.Resolve(pair[1])
+					gm := fl.DependsOnCall(a, isCallee(tfk, "Keeper", "GetAuthorityMetadata"))
+					if gm == nil || !(fl.DependsOnCall(a, isCallee("", "", "GetAdmin")) != nil || strings.Contains(valDesc(a), "Admin")) {
+						continue
+					}
+					if denomP == nil || canon(f.Resolve(gm.Call.Args[len(gm.Call.Args)-1])) != ssa.Value(denomP) {
+						continue
+					}
+					x, _ := fl.Influence(b)
+					for ap := range x {
+						if contractP != nil && ap.Root == ssa.Value(contractP) {
+							okAdmin = true
+						}
+					}
+				}
+			}
+			o.Check("C16.R7", "PerformSetMetadata|metadata written only by the admin of denom", okAdmin, pos, "SetDenomMetaData must be dominated by GetAuthorityMetadata(denom).Admin == contractAddr")
+			// a Base different from denom never reaches the write
+			okBase := false
+			for _, b := range unitBlocks(psm) {
+				if len(b.Instrs) == 0 {
+					continue
+				}
+				iff, isIf := b.Instrs[len(b.Instrs)-1].(*ssa.If)
+				if !isIf {
+					continue
+				}
+				bo, isBo := canon(iff.Cond).(*ssa.BinOp)
+				if !isBo || (bo.Op != token.EQL && bo.Op != token.NEQ) {
+					continue
+				}
+				match := false
+				for _, pair := range [][2]ssa.Value{{bo.X, bo.Y}, {bo.Y, bo.X}} {
+					nm, base := loadedField(pair[0])
+					if nm != "Base" || base == nil || denomP == nil || canon(pair[1]) != ssa.Value(denomP) {
+						continue
+					}
+					if metaP != nil {
+						x, _ := fl.Influence(pair[0])
+						for ap := range x {
+							if ap.Root == ssa.Value(metaP) {
+								match = true
+							}
+						}
+					}
+				}
+				if !match || b.Parent() != psm {
+					continue
+				}
+				neq := b.Succs[1]
+				if bo.Op == token.NEQ {
+					neq = b.Succs[0]
+				}
+				if ReachFromTop(psm, neq, siteSet([]Site{st}), nil) == nil {
+					okBase = true
+				}
+			}
+			o.Check("C16.R7", "PerformSetMetadata|a Base other than denom is refused", okBase, pos, "bank stores metadata under metadata.Base; unless Base != denom returns before SetDenomMetaData, the admin of one denomination can overwrite the metadata of any other")
+		}
+	}
+	// ---- R8: genesis import restores the exported authority record ----
+	o.Rule("C16.R8", "genesis import stores, for every imported denomination, the exported authority record: after createDenomAfterValidation (which makes the creator admin) no path reaches the next denomination or the end of the import without setAuthorityMetadata(denom, exported record)")
+	if ig := w.MustFunc(o, tfk, "Keeper", "InitGenesis"); ig != nil {
+		o.Analysed(w.FuncKey(ig))
+		cr := FindCalls(ig, false, isCallee(tfk, "Keeper", "createDenomAfterValidation"))
+		sa := FindCalls(ig, false, isCallee(tfk, "Keeper", "setAuthorityMetadata"))
+		o.Count("C16.R8 denominations created by the import", len(cr), 1)
+		for _, c := range cr {
+			to := map[ssa.Instruction]bool{c.Instr: true}
+			for _, b := range ig.Blocks {
+				if r, isR := b.Instrs[len(b.Instrs)-1].(*ssa.Return); isR {
+					to[r] = true
+				}
+			}
+			bad := ReachAvoiding(ig, c.Instr, to, siteSet(sa))
+			okArg := false
+			for _, s := range sa {
+				if fl.DependsOnCall(s.Args()[len(s.Args())-1], isCallee("", "", "GetAuthorityMetadata")) != nil {
+					okArg = true
+				}
+			}
+			o.Check("C16.R8", "InitGenesis|every imported denomination gets its exported authority record", bad == nil && okArg, w.Pos(c.Instr.Pos()), "createDenomAfterValidation makes the creator admin; skipping the setAuthorityMetadata(genDenom.GetAuthorityMetadata()) that follows (e.g. for an empty admin) hands a renounced denomination back to its creator")
+		}
+	}
 	// ---- R3 ----
 	for _, name := range []string{"mintTo", "burnFrom"} {
 		f := w.MustFunc(o, tfk, "Keeper", name)
@@ -496,8 +605,9 @@ func rulesC16(w *World, o *Out) {
 			okName := fl.DependsOnCall(r.Ret.Results[0], isCallee("x/tokenfactory/types", "", "GetTokenDenom")) != nil
 			o.Check("C16.R5", "validateCreateDenom|refuses an existing denomination", okNew, w.Pos(r.Ret.Pos()), "success must be dominated by bank GetDenomMetaData(denom) not found")
 			o.Check("C16.R5", "validateCreateDenom|name is factory/<creator>/<sub>", okName, w.Pos(r.Ret.Pos()), "the denomination must be GetTokenDenom(creator, subdenom)")
-			if g := GuardBool(r.Ret, func(c Callee) bool { return c.Name == "GetDenomMetaData" }, false); g != nil {
-				same := fl.DependsOnCall(g.Call.Args[len(g.Call.Args)-1], isCallee("x/tokenfactory/types", "", "GetTokenDenom")) != nil
+			if g, gf := GuardBoolFact(r.Ret, func(c Callee) bool { return c.Name == "GetDenomMetaData" }, false); g != nil {
+				// (asked through a predicate helper, the name is the argument bound at the helper's call)
+				same := fl.DependsOnCall(gf.Resolve(g.Call.Args[len(g.Call.Args)-1]), isCallee("x/tokenfactory/types", "", "GetTokenDenom")) != nil
 				o.Check("C16.R5", "validateCreateDenom|existence checked for the name being created", same, w.Pos(g.Pos()), "the metadata lookup must use the GetTokenDenom result")
 			}
 		}
@@ -614,6 +724,17 @@ func rulesC17(w *World, o *Out) {
 			o.Check("C17.R1", "CreateJob|owner is the creator", ok, w.Pos(st.Pos()), "job.Owner must derive from msg.Metadata.Creator only")
 		}
 	}
+	// the id that was checked is the id that is saved: nothing on the creation path assigns Job.ID
+	for _, nm := range []string{"AddNewJob", "saveJob"} {
+		if f := w.Func(sk, "Keeper", nm); f != nil {
+			sts := storesToField(f, "Job", "ID")
+			pos := w.Pos(f.Pos())
+			if len(sts) > 0 {
+				pos = w.Pos(sts[0].Pos())
+			}
+			o.Check("C17.R1", nm+"|the job id is not rewritten between the existence check and the write", len(sts) == 0, pos, "JobIDExists is asked for the id as submitted; normalising or otherwise assigning job.ID afterwards lets a request with a differently spelled id overwrite an existing job")
+		}
+	}
 	// ---- R2 ----
 	if sn := w.MustFunc(o, sk, "Keeper", "ScheduleNow"); sn != nil {
 		o.Analysed(w.FuncKey(sn))
@@ -653,6 +774,49 @@ func rulesC17(w *World, o *Out) {
 				ok = fl.DependsOnCall(st.Val, isCallee("", "", "GetPayload")) != nil && canon(st.Val) != ssa.Value(inP)
 			}
 			o.Check("C17.R2", "ScheduleNow|caller payload only for modifiable jobs", ok, w.Pos(st.Pos()), "jcfg.Payload must be the stored payload, or the caller's payload on an edge dominated by GetIsPayloadModifiable() == true")
+			// ... and the converse: the stored payload is used only when the job is not modifiable or no payload
+			// was supplied (a supplied payload that is set aside for any other reason must not silently be replaced
+			// by the stored one)
+			if isPhi {
+				okC := true
+				for i, e := range phi.Edges {
+					if canon(e) == ssa.Value(inP) {
+						continue
+					}
+					pred := phi.Block().Preds[i]
+					fs := DomFacts(pred)
+					if len(pred.Instrs) > 0 {
+						if iff, okI := pred.Instrs[len(pred.Instrs)-1].(*ssa.If); okI {
+							fs = append(fs, factOf(iff.Cond, pred.Succs[0] == phi.Block()))
+						}
+					}
+					g := false
+					for _, f := range fs {
+						if f.Kind == FFalse && fl.DependsOnCall(f.V, isCallee("", "", "GetIsPayloadModifiable")) != nil {
+							g = true
+						}
+						if f.Kind == FNil && f.V != nil && canon(f.V) == ssa.Value(inP) {
+							g = true
+						}
+						if f.Kind == FCmp && f.Op == token.EQL {
+							// len(in) == 0
+							for _, pair := range [][2]ssa.Value{{f.X, f.Y}, {f.Y, f.X}} {
+								if k, isK := pair[1].(*ssa.Const); isK && k.Value != nil && k.Int64() == 0 {
+									if lc, isC := canon(pair[0]).(*ssa.Call); isC {
+										if b, isB := lc.Call.Value.(*ssa.Builtin); isB && b.Name() == "len" && canon(lc.Call.Args[0]) == ssa.Value(inP) {
+											g = true
+										}
+									}
+								}
+							}
+						}
+					}
+					if !g {
+						okC = false
+					}
+				}
+				o.Check("C17.R2", "ScheduleNow|stored payload only when the job is fixed or nothing was supplied", okC, w.Pos(st.Pos()), "every edge on which jcfg.Payload is the stored payload must be under GetIsPayloadModifiable() == false or in == nil; a supplied payload of a modifiable job is used or the request fails")
+			}
 		}
 		ex := FindCalls(sn, false, func(c Callee) bool { return c.Name == "ExecuteJob" && c.Iface })
 		o.Count("C17.R2 chain execution sites", len(ex), 1)
@@ -1193,6 +1357,60 @@ func rulesC18(w *World, o *Out) {
 					"a failed sale (funder without spendable balance, fee grant failure) must leave no account, licence or escrow behind: Handle must receive the context returned by CacheContext, and commit must run only on success")
 			}
 		}
+	}
+	// replacing the sale contracts revokes every contract not listed again: the purge visits all stored entries
+	if sa := w.MustFunc(o, skw, "Keeper", "SetAllLighNodeSaleContracts"); sa != nil {
+		o.Analysed(w.FuncKey(sa))
+		its := FindCalls(sa, false, func(c Callee) bool { return strings.HasPrefix(c.Name, "IterAllFnc") })
+		dels := 0
+		for _, f := range unitFuncs(sa) {
+			for _, c := range CallsIn(f) {
+				if c.Callee.Name == "Delete" && c.Callee.Iface {
+					dels++
+				}
+			}
+		}
+		o.Count("C18.R3 purge iterations in SetAllLighNodeSaleContracts", len(its), 1)
+		o.Count("C18.R3 deletions in SetAllLighNodeSaleContracts", dels, 1)
+		for _, it := range its {
+			okAll := false
+			args := it.Args()
+			if mc, isMC := args[len(args)-1].(*ssa.MakeClosure); isMC {
+				if cb, isF := mc.Fn.(*ssa.Function); isF {
+					okAll = true
+					for _, b := range cb.Blocks {
+						if r, isR := b.Instrs[len(b.Instrs)-1].(*ssa.Return); isR && len(r.Results) == 1 {
+							if bv, isC := boolConst(r.Results[0]); !isC || !bv {
+								okAll = false
+							}
+						}
+					}
+				}
+			}
+			o.Check("C18.R3", "SetAllLighNodeSaleContracts|the purge visits every stored contract", okAll, w.Pos(it.Instr.Pos()), "keeperutil.IterAllFnc stops at the first callback result that is false; a purge callback that returns false leaves every contract but the first in place, so a sale from a revoked contract still creates a licence")
+		}
+	}
+	// the licence record is written only behind the lock (or by genesis import)
+	{
+		gen := w.Reach(entryFns(w.EntriesOf("genesis")), nil)
+		rt := w.Reach(entryFns(w.EntriesOf("msg", "abci", "ante", "gov", "wasm", "hook")), nil)
+		nW := 0
+		for _, s := range w.CallersOf(isCallee(pk, "Keeper", "SetLightNodeClientLicense")) {
+			nW++
+			tf := TopFunc(s.Fn)
+			ok := gen[tf] != nil && rt[tf] == nil
+			if !ok {
+				var locks []Site
+				for _, c := range CallsIn(s.Fn) {
+					if c.Callee.Name == "SendCoinsFromAccountToModule" {
+						locks = append(locks, c)
+					}
+				}
+				ok = len(locks) > 0 && PrecededBy(s.Fn, s.Instr, siteSet(locks))
+			}
+			o.Check("C18.R1", "SetLightNodeClientLicense called from "+w.FuncKey(tf), ok, w.Pos(s.Instr.Pos()), "a licence record may be written only after its amount was moved into the module account in the same function (or by genesis import); any other writer makes the pending licences exceed the escrow")
+		}
+		o.Count("C18.R1 licence writers", nW, 2)
 	}
 	// writers of the sale configuration keys only from governance / genesis
 	cr := w.ClassReach()
